@@ -244,6 +244,18 @@ def applyRemovals : List Val → List Val → List Val
     | [] => e :: es
     | d :: ds' => if e.addr = d.addr then applyRemovals es ds' else e :: applyRemovals es ds
 
+/-- the tail of `updateWithChangeSet` once the merged list is known: `updateTotalVotingPower`,
+`RescalePriorities(PriorityWindowSizeFactor * TotalVotingPower())`, `shiftByAvgProposerPriority`. -/
+def finishUpdate (s : VSet) (merged : List Val) : Except Err VSet :=
+  if totalPanics merged then .error .pTotal
+  else
+    let T := sumPowerClip merged
+    -- `TotalVotingPower()` re-reads the cache (recomputing if it is 0)
+    let T' := if T = 0 then sumPowerClip merged else T
+    if rescalePanics (windowFactor * T') merged then .error .pDivZero
+    else
+      .ok { vals := shiftByAvg (rescale (windowFactor * T') merged), total := T, proposer := s.proposer }
+
 /-- `updateWithChangeSet(changes, allowDeletes)`.  an `Err` with `isReturned` = returned error (receiver
 untouched); the others are Go panics (shown unreachable from well-formed sets). -/
 def updateWith (allowDeletes : Bool) (s : VSet) (changes : List Val) : Except Err VSet :=
@@ -260,16 +272,7 @@ def updateWith (allowDeletes : Bool) (s : VSet) (changes : List Val) : Except Er
       | .ok (newTotal, numNew) =>
         if numNew = 0 && s.vals.length = dels.length then .error .empty
         else
-          let ups' := computeNewPriorities s.vals newTotal ups
-          let merged := applyRemovals (applyUpdates s.vals ups') dels
-          if totalPanics merged then .error .pTotal
-          else
-            let T := sumPowerClip merged
-            -- `TotalVotingPower()` re-reads the cache (recomputing if it is 0)
-            let T' := if T = 0 then sumPowerClip merged else T
-            if rescalePanics (windowFactor * T') merged then .error .pDivZero
-            else
-              .ok { vals := shiftByAvg (rescale (windowFactor * T') merged), total := T, proposer := s.proposer }
+          finishUpdate s (applyRemovals (applyUpdates s.vals (computeNewPriorities s.vals newTotal ups)) dels)
 
 /-- `UpdateWithChangeSet` -/
 def update (s : VSet) (changes : List Val) : Except Err VSet := updateWith true s changes
